@@ -30,7 +30,9 @@ BOUNDS["quick"] += ("; Orchestrator.run() executed by a helper thread in lockste
                     "agents' messages (pair, one agent per computation, tables in [0, 3]), every interleaving at the "
                     "synchronisation points")
 BOUNDS["quick"] += ("; start-up phase (agent registration incl. spare agents sorting before / after the used ones, deployment, "
-                    "computation registration, run order) in every interleaving on pair (2 spares) and chain-3 (1 spare)")
+                    "computation registration, run order) in every interleaving on pair (2 spares) and chain-3 (1 spare), followed by "
+                    "the stop phase: every agent known when the stop order is handled (a spare one may have registered after the "
+                    "run order) is told to stop, and the all-stopped flag is raised exactly when the last of them has unregistered")
 OUTSIDE = "real threads, timeouts, the solve CLI, other algorithms than DPOP"
 CAP_S = {"quick": 900, "thorough": 5400}
 
@@ -315,6 +317,34 @@ def run_startup(eng, p):
             bad.append("ready_to_run set while %s not deployed" % sorted(set(names) - published))
         if mgt._all_agt_stopped.is_set():
             bad.append("all agents considered stopped during start-up (Orchestrator.run() would return at once)")
+    # -- end of the run: every computation finished, the stop order is handled; each agent that is known then (a spare
+    # agent may have registered after the run order) must be told to stop, and once each of them has unregistered its
+    # computations and itself the orchestrator must consider all agents stopped (what Orchestrator.run() waits for)
+    stop_problem = None
+    if deployed and run_given and not bad and not failures:
+        from pydcop.infrastructure.discovery import UnPublishAgentMessage, UnPublishComputationMessage
+        known = sorted(a for a in disco.agents() if a != "orchestrator")
+        n0 = len(sent)
+        mgt.on_message("orchestrator", type("M", (), {"type": "_orchestrator_stop_agents"})(), 0.0)
+        stops = sorted(a for a, m in sent[n0:] if m.type == "stop")
+        if stops != known:
+            stop_problem = "stop sent to %s while the known agents are %s" % (stops, known)
+        for a in stops:
+            if mgt._all_agt_stopped.is_set():
+                stop_problem = stop_problem or "all agents considered stopped while %s has not unregistered" % a
+            if direct:
+                for c in mapping.get(a, []):
+                    disco.unregister_computation(c, a, publish=False)
+                disco.unregister_agent(a, publish=False)
+            else:
+                for c in mapping.get(a, []):
+                    oq.append(("_discovery_" + a, "_directory", UnPublishComputationMessage(c, a)))
+                oq.append(("_discovery_" + a, "_directory", UnPublishAgentMessage(a)))
+                while oq:
+                    src, dest, msg = oq.pop(0)
+                    local[dest].on_message(src, msg, 0.0)
+        if stops == known and not mgt._all_agt_stopped.is_set():
+            stop_problem = stop_problem or "every agent stopped and unregistered, yet the orchestrator still waits (agents left: %s)" % sorted(disco.agents())
     deploys = sorted((a, m.comp_def.node.name) for a, m in sent if m.type == "deploy")
     runs = {a: sorted(m.computations) for a, m in sent if m.type == "run_computations"}
     eng.notes["outcome"] = {"dist": dist_kind, "trace": [str(t) for t in trace], "deploys": deploys, "bad": bad}
@@ -324,6 +354,8 @@ def run_startup(eng, p):
               "computations were not deployed exactly once each on their host", detail=str((deploys, trace)))
     eng.prove(deployed and run_given, "the run order is never given: Orchestrator.run() would block for ever",
               detail=str(trace))
+    eng.prove(stop_problem is None, "the stop phase cannot end: an agent is never told to stop, or the all-stopped flag is wrong",
+              detail=str((stop_problem, trace)))
     eng.prove({a: r for a, r in runs.items() if r} == {a: sorted(mapping[a]) for a in used},
               "agents were not asked to run exactly the computations they host", detail=str((runs, trace)))
 
